@@ -38,6 +38,7 @@ rundemo() {
       parser) dir="compiler/parser"; mod="$wt";;
       compiler|compiler_test) dir="compiler"; mod="$wt";;
       golang) dir="compiler/generator/golang"; mod="$wt";;
+      main) dir="."; mod="$wt";;
       *) dir="lib/go"; mod="$wt/lib/go";;
     esac
     cp "$f" "$wt/$dir/"; placed="$placed $wt/$dir/$(basename "$f")"
